@@ -116,18 +116,30 @@ Qed.
 (* ---------------- least squares: covariance through a diagonal preconditioner ---------------- *)
 Definition gdiagonal (n : nat) (a : mat R) : Prop := forall i j, (i < n)%nat -> (j < n)%nat -> i <> j -> a i j = 0.
 
+(* the repaired code is A * inv * A^T by definition, for EVERY configured preconditioner A *)
+Lemma ls_covariance_general n (a inv : mat R) v i j :
+  ls_covariance ROps n a inv v i j = v * rsum n (fun q => rsum n (fun p => a i p * inv p q) * a j q) /\
+  ls_covariance ROps n a inv v = gscale ROps (gmul ROps n (gmul ROps n a inv) (gtrans a)) v.
+Proof. split; [unfold ls_covariance, gscale, gmul, gtrans; rcbn; ring|reflexivity]. Qed.
+
+(* the code before the repair (A^T * inv * A) is a different matrix as soon as A is not symmetric:
+   A = [[1,1],[0,1]], inv = I, variance 1: entry (0,0) is 1 instead of 2 *)
+Lemma ls_covariance_old_refuted :
+  exists (a inv : mat R),
+    ls_covariance_old ROps 2 a inv 1 0%nat 0%nat <> gscale ROps (gmul ROps 2 (gmul ROps 2 a inv) (gtrans a)) 1 0%nat 0%nat.
+Proof.
+  exists (fun i j => match i, j with 1%nat, 0%nat => 0 | _, _ => 1 end), (fun i j => if Nat.eqb i j then 1 else 0).
+  unfold ls_covariance_old, gscale, gmul, gtrans. cbn. lra.
+Qed.
+
 Lemma ls_covariance_diag n a inv v i j : gdiagonal n a -> (i < n)%nat -> (j < n)%nat ->
   ls_covariance ROps n a inv v i j = v * (a i i * inv i j * a j j) /\
   ls_covariance ROps n a inv v i j = gscale ROps (gmul ROps n (gmul ROps n a inv) (gtrans a)) v i j.
 Proof.
   intros Hd Hi Hj. unfold ls_covariance, gscale, gmul, gtrans. rcbn.
-  assert (L : rsum n (fun k => rsum n (fun l => a l i * inv l k) * a k j) = a i i * inv i j * a j j).
-  { rewrite (rsum_single n j) by (try assumption; intros k Hk Hne; rewrite (Hd k j) by assumption; ring).
-    rewrite (rsum_single n i) by (try assumption; intros k Hk Hne; rewrite (Hd k i) by assumption; ring).
-    reflexivity. }
   assert (M : rsum n (fun k => rsum n (fun l => a i l * inv l k) * a j k) = a i i * inv i j * a j j).
   { rewrite (rsum_single n j) by (try assumption; intros k Hk Hne; rewrite (Hd j k) by auto; ring).
     rewrite (rsum_single n i) by (try assumption; intros k Hk Hne; rewrite (Hd i k) by auto; ring).
     reflexivity. }
-  rewrite L, M. split; ring.
+  rewrite M. split; ring.
 Qed.
